@@ -315,6 +315,26 @@ fn one_salted(ctx: &Ctx, rep: &mut Report, id: usize, c: usize, profile: &str, s
             drop(r);
         }
     }
+    // ---- the same work on a worker thread, observed through the thread's exit: whatever the library keeps per thread
+    // (scratch buffers, caches) is released when the thread ends. The closure borrows the statement and witness: moving
+    // them into a boxed closure would leave the harness's own copy of the inline seed in that box.
+    {
+        let rs = rng.next_u64();
+        let (st_ref, wit_ref, prf_ref) = (&st, &wit, &proof);
+        let tt = case.transcript();
+        w.window("prove and recover on a worker thread, through its exit", || {
+            std::thread::scope(|sc| {
+                let h = sc.spawn(|| {
+                    let mut prng = FaultRng::new(RngKind::Healthy(rs));
+                    let p2 = RangeProof::prove_with_rng(&mut tt.clone(), st_ref, wit_ref, &mut prng);
+                    let m1 = RangeProof::verify_batch(&mut [tt.clone()], std::slice::from_ref(st_ref), std::slice::from_ref(prf_ref), VerifyAction::RecoverAndVerify);
+                    let m2 = RangeProof::verify_batch(&mut [tt.clone()], std::slice::from_ref(st_ref), std::slice::from_ref(prf_ref), VerifyAction::RecoverOnly);
+                    drop((p2, m1, m2));
+                });
+                let _ = h.join();
+            });
+        });
+    }
     // ---- drops of the owning types (and of clones)
     {
         let o = CommitmentOpening::new(values[0], case.blindings[0].clone());
